@@ -552,8 +552,21 @@ func init() {
 		return mk("str.prefixof", SBool, y, x)
 	}
 	I["strings.HasSuffix"] = str2bool(strings.HasSuffix, "str.suffixof", true)
+	// host string functions distribute over ite trees with constant leaves
+	var mapLeaves func(t *Term, f func(string) *Term) *Term
+	mapLeaves = func(t *Term, f func(string) *Term) *Term {
+		if s, ok := t.constStr(); ok {
+			return f(s)
+		}
+		if t.op == "ite" && len(t.args) == 3 {
+			return mkIte(t.args[0], mapLeaves(t.args[1], f), mapLeaves(t.args[2], f))
+		}
+		panic(unsupported("string arg: non-constant string"))
+	}
 	hostStr1 := func(f func(string) string) intrinsicFn {
-		return func(p *Path, a []Value, _ *ssa.CallCommon) Value { return mkStr(f(cstr(p, a[0], "string arg"))) }
+		return func(p *Path, a []Value, _ *ssa.CallCommon) Value {
+			return mapLeaves(termOf(a[0]), func(s string) *Term { return mkStr(f(s)) })
+		}
 	}
 	I["strings.TrimSpace"] = hostStr1(strings.TrimSpace)
 	I["strings.ToLower"] = hostStr1(strings.ToLower)
@@ -561,7 +574,8 @@ func init() {
 	I["strings.Title"] = hostStr1(strings.Title)
 	hostStr2 := func(f func(a, b string) string) intrinsicFn {
 		return func(p *Path, a []Value, _ *ssa.CallCommon) Value {
-			return mkStr(f(cstr(p, a[0], "string arg"), cstr(p, a[1], "string arg")))
+			y := cstr(p, a[1], "string arg")
+			return mapLeaves(termOf(a[0]), func(s string) *Term { return mkStr(f(s, y)) })
 		}
 	}
 	I["strings.TrimPrefix"] = hostStr2(strings.TrimPrefix)
